@@ -84,6 +84,13 @@ def check(ctx):
         ctx.inst('R3', sv, 'write-index[%s]' % ('V2' if v2 else 'V1'), f0 == ('<H' if v2 else '<B') and [norm(a) for a in parts[0].args[1:]] == ['element.ident'],
                  'index packed as %r from %s' % (f0, [norm(a) for a in parts[0].args[1:]]))
         vt = [norm(a) for a in parts[1].args]
+        conv = parts[1].args[1] if len(parts[1].args) > 1 else None
+        if isinstance(conv, ast.Name):
+            binds = [s_.value for s_ in walk_own(sv.node) if isinstance(s_, ast.Assign) and len(s_.targets) == 1 and norm(s_.targets[0]) == conv.id]
+            conv = next((b_ for b_ in binds if isinstance(b_, ast.Call) and not isinstance(b_.func, (ast.Name, ast.Attribute))), conv)
+        # a converter picked from a computed table (`TABLE.get(pytype, int)(value)`) is beyond what is decided here: no verdict
+        ctx.need(not (isinstance(conv, ast.Call) and not isinstance(conv.func, (ast.Name, ast.Attribute))), 'set_value: conversion of the value goes through a computed callable (%s)' %
+                 (norm(conv.func)[:60] if isinstance(conv, ast.Call) else ''))
         want = 'float(%s)' % sv.params[2] if isf else 'int(%s)' % sv.params[2]
         ctx.inst('R2', sv, 'value-provenance[%s]' % ('float' if isf else 'int'), vt == ['element.pytype', want],
                  'value packed as %s, expected [element.pytype, %s] (no mask, modulo or clamp: struct raises on overflow)' % (vt, want))
